@@ -310,8 +310,15 @@ class SpecGen:
             # two overlapping rectangles inside the defined area whose
             # intersection is rect: widen one to the top/left, the other is rect
             ra = (sheet, max(1, r1 - 1), max(1, c1 - 1), r2, c2)
+            # the other operand sticks out to the right / below where cells exist, so
+            # that the intersection is a proper part of both written ranges
+            rb = rect
+            for cand in ((sheet, r1, c1, r2, c2 + 1), (sheet, r1, c1, r2 + 1, c2)):
+                if all(a in self.by_addr for a in self.rect_addrs(cand)):
+                    rb = cand
+                    break
             if all(a in self.by_addr for a in self.rect_addrs(ra)):
-                txt = self.range_text(*ra) + ' ' + self.range_text(*rect)
+                txt = self.range_text(*ra) + ' ' + self.range_text(*rb)
                 return txt, self.rect_addrs(rect)
         if k['multicolon'] and roll > 0.78 and r2 > r1 and c2 > c1:
             col1, col2 = rc_coord(1, c1)[:-1], rc_coord(1, c2)[:-1]
